@@ -87,6 +87,18 @@ enum { AsyncType_None = 0, AsyncType_Unique = 1, AsyncType_Shared = 2 };
 #define IsFromUnique(T) (!CFG_FROM_SHARED)
 #define IsFromShared(T) CFG_FROM_SHARED
 #define IsCall(T) CFG_CALL
+/* CoreType predicates that the configuration of a job does not fix are FREE: an arbitrary (but fixed) truth value, so a contract must hold whatever the other flags of the type are
+   and code that consults the wrong flag is decided instead of being an extraction break */
+unsigned char g_free_to_shared, g_free_lazy;
+#ifndef IsToShared
+#define IsToShared(T) (g_free_to_shared & 1)
+#endif
+#ifndef IsToUnique
+#define IsToUnique(T) (!(g_free_to_shared & 1))
+#endif
+#ifndef IsLazy
+#define IsLazy(T) (g_free_lazy & 1)
+#endif
 #define IS_TASK CFG_TASK
 /* signature class as Tag() orders it: 1 Result, 2 value, 3 error, 4 exception_ptr, 5 nothing (Unit / no argument) */
 #define INV_RESULT (CFG_CLASS == 1)
